@@ -1583,7 +1583,7 @@ LEVEL_TEXT = (
     "occurrence, unused fields have defaults; the model predicts the generated fields exactly, checked field by field against the real generator); match_type picks the "
     "first live explicit type whose strict test accepts, and values inferred as int, bool, Decimal and float are read and written back unchanged by the converter models "
     "(only repr(float) is taken from outside); connected_components is the partition into maximal overlapping groups, independent of order; an interleaving marker of any "
-    "occurrence survives the merge (sequence_marker_kept) and a regular sequence group is written back in document order by EventGenerator.next_value (interleave_reproduced). "
+    "occurrence survives the merge (sequence_marker_kept), a class is nillable exactly when some occurrence of its name is xsi:nil (nillable_any_occurrence) and a regular sequence group is written back in document order by EventGenerator.next_value (interleave_reproduced). "
     "Three full-strength statements the code violates (union members read in fixed order, positional sequence numbers, greedy field order) are refuted by witnesses and "
     "proved under decidable hypotheses. Tied to /repo by correspondence of every core (the real ResourceTransformer on preloaded resources) and by the end-to-end oracle "
     "(whole pipeline, strict parse, re-serialisation; EVERY failure of a sample set is collected and each must be one a listed finding predicts: kind, place and new value) "
